@@ -318,7 +318,10 @@ Definition deser_hostname_gen (catch_rt : bool) (o : oracles) (opt : bool) (valu
     (match strip_prefix s_unix raw with
      | Some rest =>
          (* re.search of ^unix: followed by a dot-star group: the dot stops at the first newline *)
-         match deser_path_gen catch_rt o opt (o_pathstr o (take_line rest)) with
+         (* after fix 4 of C13 the socket path is re-encoded so that Path.deserialize does not
+            decode it a second time (same flag: false = the pinned tree) *)
+         let arg := o_pathstr o (take_line rest) in
+         match deser_path_gen catch_rt o opt (if catch_rt then encode arg else arg) with
          | Ok (VPath _ p) => Ok (VStr (s_unix ++ p))
          | Ok _ => Ok (VStr (s_unix ++ s_None))      (* f"unix:{None}" *)
          | Raise e => Raise e
